@@ -55,7 +55,19 @@ def generate(seed, tier):
     sa = []
     for i in range(rng.randint(2, 4)):
         w = rng.choice([2, 3, 4])
-        sa.append({"n": "s%d" % i, "k": "s", "w": w, "s": False, "r": True, "i": 0})
+        sa.append({"n": "s%d" % i, "k": "s", "w": w, "s": False, "r": rng.random() < 0.6, "i": 0})
+    # a class constraint that reads a stand-alone field: for the object's calls it is a constant,
+    # whatever free-standing calls did to it before
+    usf = [f for f in tcls["fields"] if f["k"] == "s" and f.get("r") and not f["s"]]
+    if usf and rng.random() < 0.5:
+        f = rng.choice(usf)
+        # (declared non-random: whether an *outside* field that is declared rand takes part in an
+        # object's call is not something the property fixes, so such references are not generated)
+        gsa = rng.choice(sa)
+        gsa["r"] = False
+        tcls["blocks"].append({"n": "cg", "stmts": [progs.EXPR(progs.BIN(
+            rng.choice(["<=", ">=", "!="]), progs.F(f["n"]), {"t": "g", "n": gsa["n"]}))]})
+        prog["globals"] = sa
     rec = {"prop": ID, "seed": seed, "prog": prog, "sa": sa,
            "probe_seed": st.fault.randint(0, 1 << 30)}
     rec["ops"] = gen_ops(st, prog, g, rl_field, sa, tier)
@@ -244,12 +256,18 @@ def execute(rec):
     sa = SA()
     sa_env = builder.Env({"enums": [], "classes": []}, world=w, tag="_sa")
     for f in rec["sa"]:
-        setattr(sa, f["n"], vsc.rand_bit_t(f["w"]))
+        setattr(sa, f["n"], vsc.rand_bit_t(f["w"]) if f.get("r", True) else vsc.bit_t(f["w"]))
     sa_cls = {"name": "SA", "fields": rec["sa"], "blocks": []}
     saP = refsem.Prog({"enums": [], "classes": [sa_cls]})
 
     def sa_tree():
         return {f["n"]: int(getattr(sa, f["n"]).get_val()) for f in rec["sa"]}
+
+    if rec["prog"].get("globals"):
+        for f in rec["sa"]:
+            getattr(sa, f["n"]).get_model()       # (a stand-alone field builds its model on demand)
+        w.env.globals = {f["n"]: getattr(sa, f["n"]) for f in rec["sa"]}
+        w.globals_reader = sa_tree
 
     for oi, op in enumerate(rec["ops"]):
         kind = op["op"]
@@ -327,6 +345,8 @@ def execute(rec):
                 if refsem._walk(before, q) != b:
                     bad = (q, refsem._walk(before, q), b)
                     break
+            if bad is None and "$g" in before and before["$g"] != after.get("$g"):
+                bad = (["<stand-alone fields>"], before["$g"], after.get("$g"))
             if bad is None:
                 for (i, t) in others:
                     if w.tree(i) != t:
@@ -358,6 +378,8 @@ def execute(rec):
                 if not rp or len(rp) > 10:
                     continue
                 cw = randworld.World(rec["prog"], tag="_c%d" % oi)
+                cw.env.globals = w.env.globals
+                cw.globals_reader = w.globals_reader
                 stats["control_builds"] += 1
                 c = cw.new(pt.cname)
                 cpt = cw.parties[c]
@@ -403,6 +425,9 @@ def execute(rec):
             except (IndexError, KeyError):
                 continue
         out = w.apply(op)
+        if kind == "new" and out["st"] != "ok":
+            # nothing after this would be exercised: never let that pass silently
+            raise RuntimeError("construction failed: %r" % (out,))
         if kind in ("lappend", "lclear"):
             stats["list_edits"] = stats.get("list_edits", 0) + 1
         if kind == "rand_mode":
